@@ -55,9 +55,9 @@ def numVerdict (dec sci : Char) (s : Str) (impl : Option (List String)) : String
         | none => if idbl == "exc:bpp" then "ok" else "FAIL:toDouble_raises"
         | some p =>
           -- the stream reads '.' and e/E whatever `dec`/`sci` are: the value clause is about those
-          if dec == '.' && (sci == 'e' || sci == 'E') then
-            (if nearestDouble idbl p.value then "ok" else "FAIL:toDouble_value")
-          else "ok"
+          if nearestDouble idbl p.value then "ok"
+          else if dec == '.' && (sci == 'e' || sci == 'E') then "FAIL:toDouble_value"
+          else "FAIL:toDouble_value_custom_chars"
       if v1 != "ok" then v1
       else match pi with
         | none => if iintv == "exc:bpp" then "ok" else "FAIL:toInt_raises"
